@@ -125,18 +125,21 @@ fn compare(what: &str, data: &[u8], order: Order, align: usize, got: Result<Vec<
 
 struct Sequences {
     three: bool,
+    /// namesz/descsz of the first note range over 0..=min(2*align, maxsz)
+    maxsz: usize,
 }
 impl Sequences {
     fn dims(&self) -> [u64; 4] {
         // align, enc, namesz1, descsz1
-        [8, 4, 17, 17]
+        [8, 4, self.maxsz as u64 + 1, self.maxsz as u64 + 1]
     }
 }
 impl Space for Sequences {
     fn name(&self) -> String {
         format!(
-            "NoteIterator::new over sequences of {} notes: align in {{1,2,4,8,16,3,5,12}} x 4 encodings x note1 (namesz, descsz in 0..=min(2*align,16), type in {{1,3,7}}, name family in {{GNU, XY, non-UTF-8}}) x note2 (namesz {{0,3,4,5}}, descsz {{0,1,16,align+1}}, type {{1,3}}){} x tail in {{none, 5 garbage bytes, every truncation 1..=12 of the end}}; align 0",
+            "NoteIterator::new over sequences of {} notes: align in {{1,2,4,8,16,3,5,12}} x 4 encodings x note1 (namesz, descsz in 0..=min(2*align,{}), type in {{1,3,7}}, name family in {{GNU, XY, non-UTF-8}}) x note2 (namesz {{0,3,4,5}}, descsz {{0,1,16,align+1}}, type {{1,3}}){} x tail in {{none, 5 garbage bytes, every truncation 1..=12 of the end}}; align 0",
             if self.three { "2-3" } else { "1-2" },
+            self.maxsz,
             if self.three { " x note3 (GNU build-id / ABI tag)" } else { "" }
         )
     }
@@ -152,7 +155,7 @@ impl Space for Sequences {
         let align = ALIGNS[d[0] as usize];
         let enc = ENCS[d[1] as usize];
         let (ns1, ds1) = (d[2] as usize, d[3] as usize);
-        if ns1 > (2 * align).min(16) || ds1 > (2 * align).min(16) {
+        if ns1 > (2 * align).min(self.maxsz) || ds1 > (2 * align).min(self.maxsz) {
             out.count("beyond_2*align_not_needed");
             return;
         }
@@ -204,6 +207,50 @@ impl Space for Sequences {
         if yielded > 0 {
             out.nontrivial(dig.get() ^ idx);
             out.count_n("notes_yielded", yielded as u64);
+        }
+    }
+}
+
+/// Long sequences: 20 notes whose sizes cycle through all residues; every truncation of the section.
+struct Long;
+impl Space for Long {
+    fn name(&self) -> String {
+        "sequences of 20 notes (namesz/descsz cycling through 0..=40, typed and untyped) x 8 alignments x 4 encodings x every truncation of the section by 0..=64 bytes".into()
+    }
+    fn size(&self) -> u64 {
+        8 * 4
+    }
+    fn describe(&self, idx: u64) -> Value {
+        json!({"align": ALIGNS[(idx % 8) as usize], "encoding": ENCS[(idx / 8) as usize].name(), "notes": 20})
+    }
+    fn run(&self, idx: u64, out: &mut Outcome) {
+        let align = ALIGNS[(idx % 8) as usize];
+        let enc = ENCS[(idx / 8) as usize];
+        let e = if enc.order == Order::Lsb { AnyEndian::Little } else { AnyEndian::Big };
+        let class = class_of(enc);
+        let mut notes = Vec::new();
+        for i in 0..20usize {
+            let ns = (i * 7) % 33;
+            let ds = (i * 11 + 3) % 41;
+            let (name, ty) = match i % 4 {
+                0 => (b"GNU\0".to_vec(), 3u32),
+                1 => (name_bytes(1, ns), 7),
+                2 => (b"GNU\0".to_vec(), 1),
+                _ => (name_bytes(2, ns), 0x42),
+            };
+            let desc = if i % 4 == 2 { desc_bytes(16 + (i % 3), 5) } else { desc_bytes(ds, i as u8) };
+            notes.push(NoteSpec { n_type: ty, name, desc });
+        }
+        let body = build_notes(enc.order, align, &notes, 0);
+        let mut dig = Fnv::new();
+        let mut y = 0;
+        for cut in 0..=64usize.min(body.len()) {
+            let data = &body[..body.len() - cut];
+            let got = subject(|| collect(NoteIterator::new(e, class, align, data), data, data.len() + 2));
+            y += compare("NoteIterator(20 notes)", data, enc.order, align, got, out, &mut dig);
+        }
+        if y > 0 {
+            out.nontrivial(dig.get() ^ idx);
         }
     }
 }
@@ -272,10 +319,10 @@ pub fn build(tier: Tier) -> CheckDef {
         level: "model_checking",
         rule: "small-scope exhaustive enumeration of note sequences (every residue of namesz/descsz modulo the alignment, power-of-two and other alignments, typed and untyped notes, garbage tails and every truncation) built by the reference builder; the real NoteIterator's output (variant, type, name/descriptor byte ranges by pointer, ABI-tag words, name_str) must equal the reference walk. non-trivial = sequence that yields at least one note".into(),
         assumptions: vec!["note headers are three 32-bit words for both classes (as the property states)".into()],
-        spaces: vec![Box::new(Sequences { three: tier == Tier::Thorough }), Box::new(ThroughFile)],
+        spaces: vec![Box::new(Sequences { three: tier == Tier::Thorough, maxsz: tier.pick(20, 32) }), Box::new(Long), Box::new(ThroughFile)],
         abort_is_violation: false,
         hang_is_violation: true,
         exhaustive: true,
-        bounds: json!({"notes_per_sequence": tier.pick("1-2", "2-3"), "sizes": "0..=min(2*align,16)"}),
+        bounds: json!({"notes_per_sequence": tier.pick("1-2", "2-3"), "sizes": tier.pick("0..=min(2*align,20)", "0..=min(2*align,32)")}),
     }
 }
